@@ -750,10 +750,8 @@ func runWorker(c *Check, argv []string, tier string, start uint64, count, wallS,
 	err = cmd.Wait()
 	close(done)
 	if atomic.LoadInt64(&hungFlag) == 1 {
-		// continue after the plan that hung
-		if got+1 < count {
-			runWorker(c, argv, tier, start+uint64(got)+1, count-got-1, wallS, hangS, a, trouble)
-		}
+		// the violation is recorded; the rest of this chunk is not explored (every further
+		// hang would cost a full watchdog period)
 		return
 	}
 	if err != nil && got < count {
